@@ -126,6 +126,10 @@ def execute(sc, ctx):
     if v1 is None:
         v1 = ops.values(k)
     stratum = "injection-prone" if ops.injected(k) else "injection-free"
+    for key, p in sorted(files.items(), key=str):
+        if not os.path.exists(p):
+            ctx.violate("C10/output-missing", f"write_min_config reported success for variant {key} but {os.path.basename(p)} does not exist")
+            del files[key]
     texts = {key: open(p, encoding="utf-8", errors="surrogateescape").read() for key, p in files.items()}
     for key, p in sorted(files.items(), key=str):
         n2 = node.twin()
